@@ -151,6 +151,34 @@ def run_tree(rec, tier, seed, ti, spec, other):
                     shutil.rmtree(p, ignore_errors=True)
                 elif os.path.exists(p):
                     os.remove(p)
+        # the same documents in other XML encodings (declared ISO-8859-1, UTF-8 with a byte order mark, UTF-16):
+        # the parser must be given the bytes, the encoding is the document's own business
+        enc_root = os.path.join(work, "xml-encodings")
+        k = 0
+        for rel, text in files.items():
+            d = os.path.join(enc_root, rel) if rel else enc_root
+            os.makedirs(d, exist_ok=True)
+            body = text.split("?>", 1)[1] if text.lstrip().startswith("<?xml") else text
+            k += 1
+            choice = k % 3
+            if choice == 0:
+                try:
+                    raw = ("<?xml version='1.0' encoding='ISO-8859-1'?>" + body).encode("iso-8859-1")
+                except UnicodeEncodeError:
+                    choice = 2
+            if choice == 1:
+                raw = b"\xef\xbb\xbf" + ("<?xml version='1.0' encoding='UTF-8'?>" + body).encode("utf-8")
+            elif choice == 2:
+                raw = ("<?xml version='1.0' encoding='UTF-16'?>" + body).encode("utf-16")
+            with open(os.path.join(d, "protocol.xml"), "wb") as fh:
+                fh.write(raw)
+        out = os.path.join(work, "out-encodings")
+        res = drive(stage.REPO, enc_root, out)
+        rec.count("configurations-compared")
+        rec.case((ti, "other-xml-encodings"))
+        compare(rec, ti, "other-xml-encodings", res, out, ref, case)
+        shutil.rmtree(out, ignore_errors=True)
+        shutil.rmtree(enc_root, ignore_errors=True)
         # into its own previous output
         res = drive(stage.REPO, xml_root, base_out)
         rec.count("configurations-compared")
